@@ -66,7 +66,9 @@ public:
         assert (this != chain.load(std::memory_order_relaxed));
         //release memory order because we need to other thread to see change of _next
         //this is last operation of this thread with awaiter
+        COCLS_VERIF_POINT("asub");
         while (!chain.compare_exchange_weak(_next, this, std::memory_order_release));
+        COCLS_VERIF_POINT("apub");
 
         assert (_next != this);
     }
@@ -78,6 +80,7 @@ public:
     static suspend_point<void> resume_chain(awaiter_collector &chain) {
         //acquire memory order, we need to see modifications made by other thread during registration
         //this is first operation of the thread of awaiters
+        COCLS_VERIF_POINT("rchain");
         return resume_chain_lk(chain.exchange(nullptr, std::memory_order_acquire));
     }
 
@@ -93,11 +96,13 @@ public:
     static suspend_point<void> resume_chain_set_ready(awaiter_collector &chain, awaiter &ready_state) {
         //acquire memory order, we need to see modifications made by other thread during registration
         //this is first operation of the thread of awaiters
+        COCLS_VERIF_POINT("resolve");
         return resume_chain_lk(chain.exchange(&ready_state, std::memory_order_acq_rel));
     }
     static suspend_point<void> resume_chain_lk(awaiter *chain) {
         suspend_point<void> ret;
         while (chain) {
+            COCLS_VERIF_POINT("walk");
             auto y = chain;
             chain = chain->_next;
             y->_next = nullptr;
@@ -115,6 +120,7 @@ public:
      */
     bool subscribe_check_ready(awaiter_collector &chain, awaiter &ready_state) {
         assert(this->_next == nullptr);
+        COCLS_VERIF_POINT("sub");
         //release mode - because _next can change between tries
         while (!chain.compare_exchange_weak(_next, this, std::memory_order_release)) {
             if (_next == &ready_state) {
@@ -124,6 +130,7 @@ public:
                 std::atomic_thread_fence(std::memory_order_acquire);
                 return false;
             }
+            COCLS_VERIF_POINT("sub_retry");
         }
         return true;
     }
@@ -312,6 +319,7 @@ inline void co_awaiter<promise_type>::sync() noexcept  {
     assert(!coro_queue::is_active() && "Blocking wait in a coroutine (use force_sync() to override)");
     sync_awaiter awt;
     if (subscribe(&awt)) {
+        COCLS_VERIF_BLOCK("flagwait", [&]{return awt.flag.load();});
         awt.flag.wait(false);
     }
 }
@@ -321,6 +329,7 @@ inline void co_awaiter<promise_type>::force_sync() noexcept  {
     if (await_ready()) return ;
     sync_awaiter awt;
     if (subscribe(&awt)) {
+        COCLS_VERIF_BLOCK("flagwait", [&]{return awt.flag.load();});
         awt.flag.wait(false);
     }
 }
